@@ -776,8 +776,11 @@ void HttpMessage::useSink(const Shared<HttpSink>& s)
 // (a pipelined request, a CR LF behind a body) makes the system reset the connection and drop what is not yet sent: the
 // message would be cut short, and nothing tells the reader. So only the sending side is shut down (everything written is
 // delivered, then the end), what the peer still sends is read and dropped until it closes too (2 s at most), then the socket is closed.
-static void closeBehind(Socket& socket)
+// The same holds for a message with a length that is the last one on its connection: the server's close must not cut it.
+void closeBehind(Socket& socket) // not static: HttpServer::serve ends its connections with it
 {
+	if (socket.handle() < 0) // closed already
+		return;
 #ifdef _WIN32
 	::shutdown(socket.handle(), SD_SEND);
 #else
